@@ -133,14 +133,14 @@ def Ex.shiftOf : Ex → Int
 def Ex.isConstant : Ex → Bool
   | .field _ => false
   | .const _ => true
-  | .agg _ w => w.isConstant
-  | .avg v _ => v.isConstant
+  | .agg _ _ => false   -- /repo 5a0faf6: an aggregate always reads its state
+  | .avg _ _ => false
   | .bin _ l r => l.isConstant && r.isConstant
   | .ifE _ w => w.isConstant
   | .bounded w _ _ => w.isConstant
   | .shift w _ => w.isConstant
   | .unary _ w => w.isConstant
-  | .ptile _ v _ _ => v.isConstant
+  | .ptile _ _ _ _ => false
 
 /-- The stateless expressions an aggregate may wrap (`validateWrappedInAggregate`):
     field, constant, or BOUNDED of such. -/
